@@ -74,6 +74,44 @@ Theorem C07_builtin_copy_is_bufferize_sequence : forall tight st,
 Proof. exact builtin_copy_is_bufferize_sequence. Qed.
 Print Assumptions C07_builtin_copy_is_bufferize_sequence.
 
+(* SOURCES WITH SPARE CAPACITY.  A []byte the client owns outside the buffer - empty but
+   allocated (what a pooled object holds after x = x[:0]), or filled below its capacity - is
+   observed over its WHOLE capacity, in an array of its own; C07_no_overlap and
+   C07_content_stable therefore say: whatever is handed out afterwards - by Bufferize of that
+   very value, by a CopyTo whose source fields hold it, once or several times - never lies in
+   the source's array, spare capacity included, and the source reads what its owner wrote. *)
+Theorem C07_source_extent_is_capacity : forall tight st d spare,
+  exists x, st_log (step tight st (OSourceCap d spare)) = st_log st ++ [x] /\
+            hd_want x = d /\ hd_live x = true /\ hd_str x = false /\
+            s_arr (hd_sl x) = h_next (st_heap st) /\
+            hand_lo x = 0 /\ s_len (hd_sl x) = List.length d /\ hand_hi x = List.length d + spare.
+Proof. exact source_cap_extent. Qed.
+Print Assumptions C07_source_extent_is_capacity.
+
+Theorem C07_pairwise_disjoint : forall size ops i j x y,
+  i <> j ->
+  nth_error (st_log (run true size ops)) i = Some x -> nth_error (st_log (run true size ops)) j = Some y ->
+  hd_live x = true -> hd_live y = true -> disj x y.
+Proof. exact pairwise_disjoint. Qed.
+Print Assumptions C07_pairwise_disjoint.
+
+(* A copy whose source fields ARE observed values (generated CopyTo of an object holding them,
+   StringAnyMapInspector / StringsInspector / StaticInspector CopyTo) hands out exactly what the
+   copy of their contents hands out: the place, the length and the capacity of a source do not
+   matter, nor does the inspector or the freshness of the destination.  An emptied value
+   (x = x[:0]) is the unbuffered re-fill with nothing.  So every theorem above covers these
+   histories. *)
+Theorem C07_copy_of_observed_is_copy_of_content : forall tight st v reuse ks e xs,
+  held (st_log st) ks = Some xs -> via_ok v xs = true ->
+  step tight st (OCopyHeld v reuse ks e) = step tight st (OCopyTo (held_fields v xs) e).
+Proof. exact held_copy_is_copyto. Qed.
+Print Assumptions C07_copy_of_observed_is_copy_of_content.
+
+Theorem C07_truncate_is_empty_refill : forall tight st k,
+  step tight st (CTruncate k) = step tight st (CSetUnbuf k [] 0).
+Proof. exact truncate_is_empty_refill. Qed.
+Print Assumptions C07_truncate_is_empty_refill.
+
 (* Non-vacuity: a concrete history with growth, client appends and overwrites. *)
 Local Open Scope char_scope.
 Definition demo_ops : list op :=
@@ -114,6 +152,23 @@ Example C07_demo_builtin :
   = ([(["c"; "d"], ["c"; "d"]); (["!"], ["!"]); (["?"], ["?"]); (["q"; "r"], ["q"; "r"]); (["q"; "r"], ["q"; "r"]);
       (["g"; "h"], ["g"; "h"]); (["g"; "h"], ["g"; "h"]); ([], []); ([], []); (["7"; "8"], ["7"; "8"]); (["u"], ["u"])],
      false).
+Proof. vm_compute. reflexivity. Qed.
+
+(* Non-vacuity with sources that have spare capacity: an empty-but-allocated source (capacity 8)
+   and a half-filled one are copied twice each (Bufferize of the value itself; generated CopyTo and
+   StringsInspector.CopyTo of objects holding them), a handed-out value is emptied and fed back;
+   then the copies and the sources are grown within their capacities: every holder reads its own
+   content, nothing overlaps. *)
+Definition spare_ops : list op :=
+  [OSourceCap [] 8; OSourceCap ["a"; "b"] 6; OBufferizeFrom 0 0; OBufferizeFrom 0 0;
+   OCopyHeld VGenerated false [0; 1] 0; OCopyHeld (VStrings false) true [1; 0] 2;
+   CAppend 2 ["x"] 0; CAppend 3 ["y"] 0; CAppend 0 ["S"; "R"; "C"] 0; CAppend 1 ["!"] 0;
+   CTruncate 5; OBufferizeFrom 5 0; CAppend 5 ["p"; "q"] 0; CSetUnbuf 4 ["7"] 0].
+Example C07_demo_spare :
+  (map (fun x => (hd_want x, read (st_heap (run true 0 spare_ops)) (hd_sl x))) (st_log (run true 0 spare_ops)),
+   any_overlap (live (st_log (run true 0 spare_ops))))
+  = ([(["S"; "R"; "C"], ["S"; "R"; "C"]); (["a"; "b"; "!"], ["a"; "b"; "!"]); (["x"], ["x"]); (["y"], ["y"]);
+      (["7"], ["7"]); (["p"; "q"], ["p"; "q"]); (["a"; "b"], ["a"; "b"]); ([], []); ([], [])], false).
 Proof. vm_compute. reflexivity. Qed.
 
 (* The pinned commit (buf[off:], capacity to the end of the buffer) violates
